@@ -166,6 +166,7 @@ pub fn constrain_args(
     let exp_expression = env.is_expr;
     let mut env_with_args = env.is_expr(true);
 
+    let mut arg_names: HashSet<&Node> = HashSet::new();
     for arg in args {
         match &arg.node {
             Node::FunArg {
@@ -175,6 +176,10 @@ pub fn constrain_args(
                 default,
                 ..
             } => {
+                if !arg_names.insert(&var.node) {
+                    let msg = format!("Duplicate argument: {}", var.node);
+                    return Err(vec![TypeErr::new(var.pos, &msg)]);
+                }
                 if var.node == Node::new_self() {
                     let class_name = &env.class.clone().ok_or_else(|| {
                         TypeErr::new(var.pos, &format!("{SELF} cannot be outside class"))
